@@ -207,7 +207,7 @@ def check_cli(case):
         if res.code != 0:
             raise violation(prefix + "/exit-status", "specification %r for %d trees: exit %d: %s" % (spec, len(kept), res.code, res.err[-300:]))
         files = sorted(f for f in os.listdir(tmpdir) if f.startswith("part."))
-        if files != ["part.%d" % i for i in range(len(exp))]:
+        if files != sorted("part.%d" % i for i in range(len(exp))):
             raise violation(prefix + "/part-files", "files %r for %d parts" % (files, len(exp)))
         joined = []
         for i, size in enumerate(exp):
@@ -261,6 +261,19 @@ def gen_cli(ctx):
         ctx.count(key=case, nontrivial=exp is not None and len(exp) >= 2, classes=classes)
         if exp is not None and len(exp) >= 2 and len(case["trees"]) >= 4:
             ctx.sample({"fmt": case["fmt"], "spec": case["spec"], "filter": case["filter"], "sentences": len(case["trees"]), "parts": exp}, cap=2)
+    if ctx.shard == 0:
+        # more than ten parts (two-digit part numbers, n-fold cross-validation): the parts in NUMERIC order are the corpus
+        for fmt, nparts, ntrees in (("export", 11, 14), ("discobrackets", 12, 30), ("tigerxml", 13, 13)):
+            trees = []
+            for i in range(ntrees):
+                toks = [{"w": "w%d" % i, "p": "NN", "n": 1, "e": "--", "lem": "--", "m": "--"}, {"w": "x", "p": "VB", "n": 2, "e": "--", "lem": "--", "m": "--"}]
+                trees.append({"sid": i + 1, "root": {"l": "VROOT", "e": "--", "lem": "--", "m": "--", "c": [{"l": "S", "e": "--", "lem": "--", "m": "--", "c": toks}]}})
+            spec = "_".join(["1#"] * (nparts - 2) + ["2#", "rest"])
+            case = {"fmt": fmt, "trees": trees, "spec": spec, "filter": None, "src_enc": "utf-8", "dest_enc": "utf-8"}
+            try:
+                ctx.run_case(body, case)
+            except Violation as vio:
+                ctx.record(vio)
     ctx.hyp(cli_case(), body, max_examples=12 if quick else 100, shrink=False,
             smaller=lambda c: [dict(c, trees=c["trees"][:i] + c["trees"][i + 1:]) for i in range(len(c["trees"]))] + ([dict(c, filter=None)] if c["filter"] else []))
 
